@@ -228,3 +228,31 @@ Definition drop_holes {A} (l : list (option A)) : list A :=
 Definition indexes_by_position {A} (results : list (option A)) (sched : list nat) : list A := drop_holes (by_position results sched).
 Definition indexes_by_arrival {A} (results : list (option A)) (sched : list nat) : list A :=
   flat_map (fun i => match nth_error results i with Some (Some v) => [v] | _ => [] end) sched.
+
+(* ---- 5. round 2: the other steps of a build may do ANYTHING to the file --------------- *)
+(* [other] is an arbitrary semantics (it may rewrite the file, it may fail) for every
+   step that is neither SetRepositories nor one of C10's pure calls (which only read:
+   BuildSteps.pure_calls).  What makes the final file a function of the configuration
+   is then the ORDER read from the source: SetRepositories is the last step that may
+   change the filesystem before it is serialised. *)
+Definition repos_sem_any (other : string -> list string -> res (list string)) (c : repo_cfg) (srcs : list string)
+    (call : string) (st : list string) : res (list string) :=
+  if String.eqb call "bc.apk.SetRepositories" then
+    match repo_set c srcs with Some l => Ok l | None => Err end
+  else if in_list call pure_calls then Ok st
+  else other call st.
+Definition final_repos_any (other : string -> list string -> res (list string)) (defs : fdefs) (srcs : list string)
+    (cond : string -> bool) (c : repo_cfg) (st0 : list string) : option (res (list string)) :=
+  match split_at_serialiser (fst (build_trace defs cond)) with
+  | Some (before, _, _) => Some (exec (list string) (repos_sem_any other c srcs) before st0)
+  | None => None
+  end.
+(* decidable: in every build that serialises, the last step before the serialiser that may change the filesystem is SetRepositories *)
+Definition set_last_before_serialise (defs : fdefs) (cond : string -> bool) : bool :=
+  match split_at_serialiser (fst (build_trace defs cond)) with
+  | Some (before, _, _) => match rev (filter mutating before) with
+                           | last :: _ => String.eqb last "bc.apk.SetRepositories"
+                           | [] => false
+                           end
+  | None => true
+  end.
